@@ -74,7 +74,7 @@ def cases(draw, sound, small=False):
     # search histories on one indexer object: a second pass (optionally after assigntorings again), or a second
     # (minpks, tol) entry for indexing.index as in its default argument
     if c["driver"] in ("score_all_pairs", "index") and ng * nrefl <= (400 if small else 1500):
-        c["passes"] = draw(st.sampled_from([1, 2, 2, "rings+2"]))
+        c["passes"] = draw(st.sampled_from([1, 2, 2, "rings+2", "reset2"]))
     if not sound:
         # incomplete, grain dependent coverage of the rings: reflections within 25 or 40 degrees of the rotation axis
         # never diffract (ideal data all the same); the required fraction is lowered accordingly
@@ -267,7 +267,7 @@ def check(case, rec=None):
     cImageD11.cimaged11_omp_set_num_threads(2)
     uc = unitcell.unitcell(cell, sym)
     passes = case.get("passes", 1)
-    single_round = passes == 1
+    single_round = passes in (1, "reset2")
     dohist_used = "none"
     minpks_low = minpks
     if case["driver"] == "score_all_pairs":
@@ -278,7 +278,16 @@ def check(case, rec=None):
             ok, e = guard(ind.score_all_pairs)
             if not ok:
                 return [exc_failure("score_all_pairs", e)]
-            if passes != 1:
+            if passes == "reset2":
+                # the object put back to its initial state and searched again, twice (a parameter scan on one
+                # indexer): the last search is a first search
+                for _ in range(2):
+                    ok, e = guard(ind.reset)
+                    if ok:
+                        ok, e = guard(ind.score_all_pairs)
+                    if not ok:
+                        return [exc_failure("reset / score_all_pairs", e)]
+            elif passes != 1:
                 if passes == "rings+2":
                     ok, e = guard(ind.assigntorings)
                     if not ok:
